@@ -156,7 +156,7 @@ func (ss *SegStore) encodeRawJsonObject(currKey string, data []byte, tsKey *stri
 
 			matchedCol = ss.encodeSingleString(finalKey, tsKey, matchedCol, valUnescaped)
 		case jp.Number:
-			numVal, err := jp.ParseInt(value)
+			numVal, err := parseJsonInt(value)
 			if err != nil {
 				fltVal, err := jp.ParseFloat(value)
 				if err != nil {
@@ -243,7 +243,7 @@ func (ss *SegStore) encodeNonJaegerRawJsonArray(currKey string, data []byte, tsK
 			}
 			matchedCol = ss.encodeSingleString(finalKey, tsKey, matchedCol, valUnescaped)
 		case jp.Number:
-			numVal, encErr := jp.ParseInt(value)
+			numVal, encErr := parseJsonInt(value)
 			if encErr != nil {
 				fltVal, encErr := jp.ParseFloat(value)
 				if encErr != nil {
